@@ -326,6 +326,36 @@ func c06OracleOtlp(r *h.Result, c *c06OtlpCase, rd *c06ReadResult) {
 				break
 			}
 		}
+		// the tag index and the span read back tell the same story: a scalar attribute read back under a key that no nested
+		// path flattens to has a tag row with its text (whichever duplicate the two sides keep, they keep the same one)
+		nested := map[string]bool{}
+		for _, kv := range merged {
+			for _, wr := range c06FlattenVal(kv.Key, kv.Value, nil) {
+				if wr.k != kv.Key {
+					nested[wr.k] = true
+				}
+			}
+		}
+		for _, kv := range got.Attributes {
+			if nested[kv.Key] || kv.Key == "service.name" || kv.Key == "name" || kv.Key == "remoteService.name" {
+				continue
+			}
+			wr := c06FlattenVal(kv.Key, kv.Value, nil)
+			if len(wr) != 1 || wr[0].k != kv.Key {
+				continue
+			}
+			found := false
+			for _, t := range w.Tags {
+				if bytes.Equal(t.Sid, w.Rows[i].Sid) && bytes.Equal(t.Tid, w.Rows[i].Tid) && t.Ts == w.Rows[i].Ts && t.Key == kv.Key && t.Val == wr[0].v {
+					found = true
+					break
+				}
+			}
+			if !found {
+				V("C06/otlp-read-vs-tag-index", fmt.Sprintf("span %d: attribute %q read back as %q has no tag row with that value", i, kv.Key, wr[0].v))
+				break
+			}
+		}
 		if n, g := c06CountKey(got.Attributes, "service.name"); n != 1 || g.Value.GetStringValue() != rd.Svcs[i] {
 			V("C06/otlp-read-service-attr", fmt.Sprintf("span %d read back without a service.name attribute equal to its service name %q", i, rd.Svcs[i]))
 		}
